@@ -1,10 +1,13 @@
 import AvroModel.Drv.Sexp
 import AvroModel.Drv.C17
+import AvroModel.Drv.Enc
 open Avro Avro.Sexp Avro.Drv
 
 def dispatch (prop : String) (op : String) (args : List Sexp) : Verdict :=
   match prop with
   | "C17" => c17 op args
+  | "C09" => c09 op args
+  | "C16" => c16 op args
   | _ => .bad s!"unknown property {prop}"
 
 partial def loop (prop : String) (h : IO.FS.Stream) (out : IO.FS.Stream) : IO Unit := do
